@@ -8,8 +8,10 @@ import (
 	"regexp"
 	"context"
 	dsql "database/sql"
-	"database/sql/driver"
+	"encoding/binary"
 	"encoding/json"
+	"net/http"
+	"net/http/httptest"
 	"errors"
 	"fmt"
 	"io"
@@ -22,7 +24,10 @@ import (
 	"time"
 	"unicode/utf8"
 
+	"github.com/ClickHouse/clickhouse-go/v2"
+	"github.com/jmoiron/sqlx"
 	"github.com/metrico/cloki-config/config"
+	"github.com/metrico/qryn/reader/utils/dsn"
 	"github.com/metrico/qryn/reader/logql/logql_parser"
 	logql_transpiler_v2 "github.com/metrico/qryn/reader/logql/logql_transpiler_v2"
 	"github.com/metrico/qryn/reader/logql/logql_transpiler_v2/clickhouse_planner"
@@ -42,66 +47,138 @@ import (
 
 // ------------------------------------------------------------------ recording session
 
-// fake database/sql driver: every query answers an empty result set (enough for dbVersion.GetVersionInfo
-// and for every reader service to reach and issue its main statement)
-type fakeDrv struct{}
-type fakeConn struct{}
-type fakeRows struct{}
-type fakeStmt struct{}
-
-func (fakeDrv) Open(name string) (driver.Conn, error) { return fakeConn{}, nil }
-func (fakeConn) Prepare(q string) (driver.Stmt, error) { return fakeStmt{}, nil }
-func (fakeConn) Close() error                          { return nil }
-func (fakeConn) Begin() (driver.Tx, error)             { return nil, errors.New("no tx") }
-func (fakeConn) QueryContext(ctx context.Context, q string, a []driver.NamedValue) (driver.Rows, error) {
-	return fakeRows{}, nil
-}
-func (fakeStmt) Close() error                                    { return nil }
-func (fakeStmt) NumInput() int                                   { return -1 }
-func (fakeStmt) Exec(a []driver.Value) (driver.Result, error)    { return nil, errors.New("no exec") }
-func (fakeStmt) Query(a []driver.Value) (driver.Rows, error)     { return fakeRows{}, nil }
-func (fakeRows) Columns() []string                               { return []string{"c"} }
-func (fakeRows) Close() error                                    { return nil }
-func (fakeRows) Next(dest []driver.Value) error                  { return io.EOF }
-
-var fakeDB *dsql.DB
-
-func init() {
-	dsql.Register("c10fake", fakeDrv{})
-	var err error
-	fakeDB, err = dsql.Open("c10fake", "")
-	if err != nil {
-		panic(err)
-	}
-}
+func init() { wire = startWire() }
 
 var errRecorded = errors.New("recorded")
 
-// recDB is the model.ISqlxDB handed to the code under test: it records every statement.
+// ------------------------------------------------------------------ the wire (round 6, seeded C10-f)
+//
+// The statement that reaches ClickHouse is NOT the text handed to ISqlxDB.QueryCtx: once the call has bind arguments, clickhouse-go's
+// client-side bind rewrites every `$<digits>` / `?` / `@name` of the text - also inside the string literals written for request values.
+// So the session handed to the code under test is the repository's own dsn.StableSqlxDBWrapper over the REAL clickhouse-go driver
+// (database/sql, HTTP protocol); only the ClickHouse server is a stand-in: an HTTP endpoint that answers the driver's two handshake
+// statements and records the body of every other POST, i.e. the statement as it left the driver.
+type wireT struct {
+	call  sync.Mutex // one statement at a time: what the endpoint records during a call belongs to that call
+	mu    sync.Mutex
+	got   []string
+	srv   *httptest.Server
+	sess  *dsn.StableSqlxDBWrapper
+	stats struct{ Sent, WithArgs, Rewritten, Refused int }
+}
+
+var wire *wireT
+
+func nativeStringBlock(name string, val string) []byte {
+	var b []byte
+	uv := func(n int) { b = binary.AppendUvarint(b, uint64(n)) }
+	str := func(s string) { uv(len(s)); b = append(b, s...) }
+	uv(1) // columns
+	uv(1) // rows
+	str(name)
+	str("String")
+	str(val)
+	return b
+}
+
+func startWire() *wireT {
+	w := &wireT{}
+	w.srv = httptest.NewServer(http.HandlerFunc(func(rw http.ResponseWriter, req *http.Request) {
+		body, _ := io.ReadAll(req.Body)
+		stmt := string(body)
+		switch stmt {
+		case "SELECT timezone()":
+			rw.Write(nativeStringBlock("timezone()", "UTC"))
+			return
+		case "SELECT version()":
+			rw.Write(nativeStringBlock("version()", "24.3.1.1"))
+			return
+		}
+		w.mu.Lock()
+		w.got = append(w.got, stmt)
+		w.mu.Unlock()
+		// empty answer: no rows
+	}))
+	getDB := func() *sqlx.DB {
+		conn := clickhouse.OpenDB(&clickhouse.Options{
+			Protocol: clickhouse.HTTP,
+			Addr:     []string{strings.TrimPrefix(w.srv.URL, "http://")},
+			Auth:     clickhouse.Auth{Database: "qryn"},
+		})
+		conn.SetMaxOpenConns(1)
+		return sqlx.NewDb(conn, "clickhouse")
+	}
+	w.sess = &dsn.StableSqlxDBWrapper{DB: getDB(), GetDB: getDB, Name: "wire"}
+	return w
+}
+
+// send hands (query, args) to the real session and returns what reached the endpoint (nothing when the driver refused the statement)
+func (w *wireT) send(exec bool, query string, args []any) ([]string, *dsql.Rows, error) {
+	w.call.Lock()
+	defer w.call.Unlock()
+	w.mu.Lock()
+	w.got = nil
+	w.mu.Unlock()
+	var rows *dsql.Rows
+	var err error
+	if exec {
+		err = w.sess.ExecCtx(context.Background(), query, args...)
+	} else {
+		rows, err = w.sess.QueryCtx(context.Background(), query, args...)
+	}
+	w.mu.Lock()
+	got := append([]string(nil), w.got...)
+	w.mu.Unlock()
+	w.stats.Sent++
+	if len(args) > 0 {
+		w.stats.WithArgs++
+	}
+	if len(got) == 0 {
+		w.stats.Refused++
+	} else if len(got) != 1 || got[0] != query {
+		w.stats.Rewritten++
+	}
+	return got, rows, err
+}
+
+// recDB is the model.ISqlxDB handed to the code under test: it records every statement AS IT REACHED THE WIRE
+// (q) and, beside it, the text and the number of bind arguments the code handed to the session (pre, nargs).
 type recDB struct {
 	mu    sync.Mutex
 	q     []string
+	pre   []string
+	nargs []int
 	fail  bool // answer an error instead of an empty result set
 	dbnam string
 }
 
 func (r *recDB) GetName() string { return r.dbnam }
-func (r *recDB) QueryCtx(ctx context.Context, query string, args ...any) (*dsql.Rows, error) {
+func (r *recDB) record(query string, args []any, got []string) {
 	r.mu.Lock()
+	for _, g := range got {
+		r.q = append(r.q, g)
+		r.pre = append(r.pre, query)
+		r.nargs = append(r.nargs, len(args))
+	}
+	r.mu.Unlock()
+}
+func (r *recDB) QueryCtx(ctx context.Context, query string, args ...any) (*dsql.Rows, error) {
+	got, rows, err := wire.send(false, query, args)
 	// the two statements of dbVersion.GetVersionInfo are constant and cached per time window: not part of the request
 	if !strings.HasPrefix(query, "SELECT argMax(name, inserted_at)") && query != "SHOW TABLES" {
-		r.q = append(r.q, query)
+		r.record(query, args, got)
 	}
-	r.mu.Unlock()
 	if r.fail {
+		if rows != nil {
+			rows.Close()
+		}
 		return nil, errRecorded
 	}
-	return fakeDB.QueryContext(ctx, "x")
+	return rows, err
 }
 func (r *recDB) ExecCtx(ctx context.Context, query string, args ...any) error {
-	r.mu.Lock()
-	r.q = append(r.q, query)
-	r.mu.Unlock()
+	got, _, _ := wire.send(true, query, args)
+	r.record(query, args, got)
 	return errRecorded
 }
 func (r *recDB) Conn(ctx context.Context) (*dsql.Conn, error) { return nil, errRecorded }
@@ -110,8 +187,14 @@ func (r *recDB) Close()                                       {}
 func (r *recDB) take() []string {
 	r.mu.Lock()
 	defer r.mu.Unlock()
+	lastPre = append([]string(nil), r.pre...)
+	lastNargs = append([]int(nil), r.nargs...)
 	return append([]string(nil), r.q...)
 }
+
+// what the code handed to the session for the statements taken last (emitted with the case when it differs from the wire text)
+var lastPre []string
+var lastNargs []int
 
 type registry struct {
 	db      *recDB
@@ -780,6 +863,22 @@ func sites() []site {
 		}
 		return v, err
 	}))
+	// round 6 (seeded C10-f): the label name of the URL beside selectors that hold the driver's bind placeholders: were the name (or
+	// anything else) handed to the session as a bind argument, the driver would write it INTO the selectors' literals
+	s = append(s, svcSite("labels.values.label.placeholders", false, func(reg *registry, v string) (string, error) {
+		q := service.NewQueryLabelsService(&model.ServiceData{Session: reg})
+		return v, drainS(q.Values(context.Background(), v, []string{`{a="x$1y", b=~"$1|z"}`}, 1700000000000, 1700003600000, 1))
+	}))
+	s = append(s, svcSite("labels.promvalues.label.placeholders", false, func(reg *registry, v string) (string, error) {
+		q := service.NewQueryLabelsService(&model.ServiceData{Session: reg})
+		var err error
+		if p := hx.Catch(func() {
+			err = drainS(q.PromValues(context.Background(), v, []string{`up{job="x$1y"}`}, 1700000000000, 1700003600000, 2))
+		}); p != "" {
+			return "", errors.New("panic " + p)
+		}
+		return v, err
+	}))
 	// round 4: regex matchers inside the match[] parameters of the label-values endpoints
 	s = append(s, svcSite("labels.values.match.re", false, func(reg *registry, v string) (string, error) {
 		lit := dq(v)
@@ -1050,12 +1149,16 @@ var atoms = []string{
 	// regexp / os.Expand / text/template / driver placeholders
 	"%s", "%d", "%v", "%q", "%'", "%%", "%[1]s", "%!", "%!(", "%x'", "%+v", "%5.2f", "%c'", "%U", "%\\", "%*d",
 	"$1", "${1}", "$$1'", "{{.}}", "{{", "?", ":p", "@p1", "{0}", "{}",
+	// round 6 (seeded C10-f): the placeholders of clickhouse-go's client-side bind (numeric, positional with its escape, named) and of
+	// its native query parameters; they are rewritten INSIDE literals as soon as the call of the session has an argument
+	"x$1y", "$2", "$0", "$10", "$1'", "'$1", "\\?", "a?b", "??", "@name", "@p1'", "{a:String}", "{p1:Identifier}",
 	"' OR 1=1 --", "'; DROP TABLE samples; --", "\\') UNION ALL SELECT 1 --", "') /*", "x", "a", "0", "1=1",
 }
 
 // tried at every position in every run: `%'` (the escaped quote behind a percent sign), a plain verb, the escaped percent sign,
 // an indexed verb next to a bad verb
-var directiveGrid = []string{"%'", "a%sb", "%%'", "%[1]s%!d"}
+// round 6: a numeric and a positional bind placeholder (the statement is observed behind the driver)
+var directiveGrid = []string{"%'", "a%sb", "%%'", "%[1]s%!d", "x$1y", "a?b"}
 
 func genString(r *rand.Rand) (string, string) {
 	switch r.Intn(11) {
@@ -1254,6 +1357,12 @@ type caseRec struct {
 	Nargs  int    `json:"nargs,omitempty"` // site "gofmt" (round 5): number of string operands handed to fmt.Sprintf with Val as the format
 	Shaped bool   `json:"shaped,omitempty"`
 	ShCls  string `json:"shape_class,omitempty"`
+	// round 6: the statement was handed to a session and recorded at the wire (behind the real clickhouse-go driver); BindArgs = number
+	// of bind arguments of the call; Pre = the text handed to the session when the driver changed it
+	Args     []string `json:"args,omitempty"` // site "chbind": hex bind arguments
+	Wire     bool   `json:"wire,omitempty"`
+	BindArgs int    `json:"bind_args,omitempty"`
+	Pre      string `json:"pre,omitempty"`
 }
 
 type runner struct {
@@ -1271,6 +1380,7 @@ func (rn *runner) baseFor(st site, mk, mklit string, stmt int, nstmts int) int {
 	var r res
 	lastTq = nil
 	lastLogql.q = ""
+	lastPre, lastNargs = nil, nil
 	if p := hx.Catch(func() { r = st.run(mk) }); p != "" {
 		r.rej = "panic: " + p
 	}
@@ -1299,7 +1409,9 @@ func (rn *runner) oneShaped(st site, v, class string, npre, npost int) {
 	var r res
 	lastLogql.q = ""
 	lastTq = nil
+	lastPre, lastNargs = nil, nil
 	p := hx.Catch(func() { r = st.run(v) })
+	pre, nargs := lastPre, lastNargs
 	if p != "" {
 		r.rej = "panic: " + p
 	}
@@ -1340,6 +1452,14 @@ func (rn *runner) oneShaped(st site, v, class string, npre, npost int) {
 		if i == 0 {
 			c.Tq = ctq
 		}
+		if len(pre) == len(r.sqls) {
+			// the statement went through a session: q is what reached the wire
+			c.Wire = true
+			c.BindArgs = nargs[i]
+			if pre[i] != q {
+				c.Pre = hx.Hex(pre[i])
+			}
+		}
 		rn.out.Put(c)
 	}
 }
@@ -1370,6 +1490,27 @@ func main() {
 				rn.id++
 				out.Put(map[string]any{"kind": "fmt", "id": rn.id, "format": c.Val, "nargs": c.Nargs,
 					"out": hx.Hex(fmt.Sprintf(hx.UnHex(c.Val), ops[:c.Nargs]...))})
+				return
+			}
+			if c.Site == "chbind" {
+				// round 6: what the real session + driver send for (statement text, string bind arguments) (tie of model/ChBind.v)
+				var args []any
+				for _, a := range c.Args {
+					args = append(args, hx.UnHex(a))
+				}
+				got, rows, err := wire.send(false, hx.UnHex(c.Val), args)
+				if rows != nil {
+					rows.Close()
+				}
+				rn.id++
+				o := map[string]any{"kind": "bind", "id": rn.id, "text": c.Val, "args": c.Args, "sent": len(got)}
+				if len(got) == 1 {
+					o["out"] = hx.Hex(got[0])
+				}
+				if err != nil {
+					o["err"] = short(err)
+				}
+				out.Put(o)
 				return
 			}
 			if s, ok := byName[c.Site]; ok {
